@@ -22,7 +22,7 @@ from . import inline
 from .poly import P, Rat, from_ast, nfs, Unsupported, NonMonomialDivision
 
 PURE_FUNCS = {'float', 'int', 'len', 'abs', 'min', 'max', 'bool', 'str', 'tuple', 'list', 'range', 'sorted', 'sum', 'zip', 'enumerate', 'isinstance',
-              'sin', 'cos', 'tan', 'sqrt', 'deg2rad', 'rad2deg', 'np.sin', 'np.cos', 'np.tan', 'np.sqrt', 'np.deg2rad', 'getattr', 'hasattr', 'type', 'dict', 'set'}
+              'sin', 'cos', 'tan', 'sqrt', 'deg2rad', 'rad2deg', 'np.sin', 'np.cos', 'np.tan', 'np.sqrt', 'np.deg2rad', 'getattr', 'hasattr', 'type', 'dict', 'set', 'record__'}
 PURE_METHODS = {'lower', 'upper', 'strip', 'startswith', 'endswith', 'get', 'keys', 'values', 'items', 'format', 'count', 'index',
                 'toarray', 'tocsr', 'tocoo', 'tocsc', 'copy', 'ravel', 'flatten', 'nonzero', 'sum', 'dot', 'reshape', 'transpose', 'conj', 'todense'}
 SCALAR_FUNCS = {'float', 'int', 'len', 'abs', 'sin', 'cos', 'tan', 'sqrt', 'deg2rad', 'rad2deg', 'np.sin', 'np.cos', 'np.tan', 'np.sqrt', 'np.deg2rad', 'min', 'max'}
@@ -483,6 +483,7 @@ class Normalizer:
                 self.split_webs(fn)
             except Exception:
                 pass
+            _KERNEL_ALIASES = find_kernel_aliases(fn)
             self.forward_substitute(fn)
             self.drop_rederivations(fn)
             for _m in range(30):
@@ -517,6 +518,7 @@ class Normalizer:
                 self.split_webs(fn)
             except Exception:
                 pass
+            _KERNEL_ALIASES = find_kernel_aliases(fn)
             self.forward_substitute(fn)
             self.merge_adjacent(fn)
             self.dead_stores(fn)
@@ -859,14 +861,6 @@ class Normalizer:
                         and not isinstance(body[0].value, ast.IfExp) and not isinstance(orelse[0].value, ast.IfExp):
                     ife = ast.IfExp(test=st.test, body=body[0].value, orelse=orelse[0].value)
                     out += self.split_assign(ast.Assign(targets=[body[0].targets[0]], value=ife))
-                elif len(body) == 1 and len(orelse) == 1 and isinstance(body[0], ast.Return) and isinstance(orelse[0], ast.Return) and body[0].value is not None \
-                        and orelse[0].value is not None and is_pure(body[0].value) and is_pure(orelse[0].value) and is_pure(st.test) \
-                        and not isinstance(body[0].value, ast.IfExp) and not isinstance(orelse[0].value, ast.IfExp):
-                    # if c: return a else: return b  ->  return a if c else b
-                    out.append(ast.Return(value=ast.IfExp(test=st.test, body=body[0].value, orelse=orelse[0].value)))
-                    stmts = stmts[:i + 1] + rest
-                    i += 1
-                    break
                 elif self.merge_call_branches(st.test, body, orelse) is not None:
                     out += self.split_assign(self.merge_call_branches(st.test, body, orelse))
                 elif len(body) == 1 and len(orelse) == 1 and isinstance(body[0], ast.AugAssign) and isinstance(orelse[0], ast.AugAssign) \
@@ -923,6 +917,8 @@ class Normalizer:
                 st.orelse = self.block(st.orelse)
                 st.finalbody = self.block(st.finalbody)
                 out.append(st)
+            elif isinstance(st, ast.Assign) and self.fold_item_store(out, st):
+                pass
             elif isinstance(st, ast.Assign):
                 out += self.split_assign(st)
             elif isinstance(st, ast.AugAssign) and isinstance(st.op, ast.Add) and isinstance(st.value, ast.UnaryOp) and isinstance(st.value.op, ast.USub):
@@ -934,12 +930,16 @@ class Normalizer:
                 st.op = ast.Sub()
                 st.value = ast.BinOp(left=st.value.left.operand, op=ast.Mult(), right=st.value.right)
                 out.append(st)
-            elif self.fold_append(out, st):
+            elif self.fold_append(out, st) or self.fold_item_store(out, st):
                 pass
             elif isinstance(st, ast.Expr) and isinstance(st.value, ast.Call) and dotted(st.value.func) == 'setattr' and len(st.value.args) == 3 and not st.value.keywords \
                     and isinstance(st.value.args[1], ast.Constant) and isinstance(st.value.args[1].value, str) and st.value.args[1].value.isidentifier():
                 # setattr(obj, 'name', v) -> obj.name = v
                 out.append(ast.Assign(targets=[ast.Attribute(value=st.value.args[0], attr=st.value.args[1].value, ctx=ast.Store())], value=st.value.args[2]))
+            elif isinstance(st, ast.Return) and isinstance(st.value, ast.IfExp) and is_pure(st.value.test):
+                # return a if c else b  ->  if c: return a else: return b   (statement level is the canonical one: a trailing `return None` disappears)
+                stmts = stmts[:i] + [ast.If(test=st.value.test, body=[ast.Return(value=st.value.body)], orelse=[ast.Return(value=st.value.orelse)])]
+                continue
             elif isinstance(st, (ast.Return, ast.Raise, ast.Continue, ast.Break)):
                 out.append(st)
                 break       # unreachable code after an unconditional exit
@@ -947,6 +947,37 @@ class Normalizer:
                 out.append(st)
             i += 1
         return out
+
+    def fold_item_store(self, out, st):
+        """d = {..literal..} followed by d['k'] = e (constant key not yet in the literal, pure e not reading d)  ->  d = {.., 'k': e};
+        between the two only other fresh literals may be created (n = {} / [] / constant) or filled the same way (they fold first)"""
+        if not (isinstance(st, ast.Assign) and len(st.targets) == 1 and isinstance(st.targets[0], ast.Subscript) and isinstance(st.targets[0].value, ast.Name)
+                and isinstance(st.targets[0].slice, ast.Constant) and isinstance(st.targets[0].slice.value, (str, int))):
+            return False
+        v = st.targets[0].value.id
+        j = len(out) - 1
+        while j >= 0:
+            o = out[j]
+            if isinstance(o, ast.Assign) and len(o.targets) == 1 and isinstance(o.targets[0], ast.Name) and o.targets[0].id == v:
+                break
+            fresh = isinstance(o, ast.Assign) and len(o.targets) == 1 and isinstance(o.targets[0], ast.Name) and isinstance(o.value, (ast.Dict, ast.List, ast.Tuple, ast.Constant)) \
+                and is_pure(o.value) and not any(isinstance(x, ast.Name) and x.id == v for x in ast.walk(o))
+            if not fresh:
+                return False
+            j -= 1
+        if j < 0 or not isinstance(out[j].value, ast.Dict):
+            return False
+        d = out[j].value
+        if any(k is None or not isinstance(k, ast.Constant) for k in d.keys) or any(k.value == st.targets[0].slice.value for k in d.keys):
+            return False
+        if not is_pure(st.value) or any(isinstance(x, ast.Name) and x.id == v for x in ast.walk(st.value)) or not all(is_pure(x) for x in d.values):
+            return False
+        # the value must not read any of the names created in between
+        between = {o.targets[0].id for o in out[j + 1:]}
+        if any(isinstance(x, ast.Name) and x.id in between for x in ast.walk(st.value)):
+            return False
+        out[j] = ast.Assign(targets=out[j].targets, value=ast.Dict(keys=list(d.keys) + [st.targets[0].slice], values=list(d.values) + [st.value]))
+        return True
 
     def fold_append(self, out, st):
         """v = [a, b] directly followed by v.append(c) / v.extend([c, d]) / v += [c, d]   ->   v = [a, b, c(, d)]   (pure elements)"""
@@ -999,45 +1030,82 @@ class Normalizer:
         return ast.Assign(targets=a.targets, value=call)
 
     def thread_flags(self, stmts):
-        """flag = K0; if c: (... flag = K1) else: (...); if flag: A else: B   ->   the second `if` is decided at the end of each branch
-        of the first one and its branch is appended there (jump threading over a boolean flag); the flag assignments that are left
-        are dead stores when nothing else reads the flag"""
+        """flag = K0; if c: (... flag = K1) elif d: (... flag = K2) ...; if <test on flag>: A else: B   ->   the second `if` is decided at
+        the end of every branch of the first one and its branch is appended there (jump threading).  The flag holds literals only (None,
+        True / False, a non-empty tuple / list, a non-empty string, a non-zero number); the tests understood are `flag`, `not flag`,
+        `flag is None`, `flag is not None`.  The assignments that are left are dead stores when nothing else reads the flag."""
         stmts = list(stmts)
+
+        def flag_value(v):
+            if isinstance(v, ast.Constant):
+                if v.value is None:
+                    return 'none'
+                if isinstance(v.value, bool):
+                    return v.value
+                if isinstance(v.value, (str, int, float)) and v.value:
+                    return 'obj'
+                return None
+            if isinstance(v, (ast.Tuple, ast.List)) and v.elts and not any(isinstance(e, ast.Starred) for e in v.elts):
+                return 'obj'
+            if isinstance(v, ast.Call) and isinstance(v.func, ast.Name) and v.func.id == 'record__' and v.keywords:
+                return 'obj'
+            return None
+
+        def decide(t, flag, val):
+            if isinstance(t, ast.UnaryOp) and isinstance(t.op, ast.Not):
+                d = decide(t.operand, flag, val)
+                return None if d is None else not d
+            if isinstance(t, ast.Name) and t.id == flag:
+                return {'none': False, 'obj': True, True: True, False: False}.get(val)
+            if isinstance(t, ast.Compare) and len(t.ops) == 1 and isinstance(t.left, ast.Name) and t.left.id == flag and isinstance(t.ops[0], (ast.Is, ast.IsNot)) \
+                    and isinstance(t.comparators[0], ast.Constant) and t.comparators[0].value is None and val is not None:
+                return (val == 'none') == isinstance(t.ops[0], ast.Is)
+            return None
+
+        def stores(node, flag):
+            return any(isinstance(n, ast.Name) and n.id == flag and isinstance(n.ctx, (ast.Store, ast.Del)) for n in ast.walk(node))
+
+        def thread(br, cur, flag, b):
+            if always_exits(br):
+                return br
+            br = list(br)
+            for k, st in enumerate(br):
+                if isinstance(st, ast.Assign) and len(st.targets) == 1 and isinstance(st.targets[0], ast.Name) and st.targets[0].id == flag:
+                    cur = flag_value(st.value)
+                    if cur is None:
+                        return None
+                elif stores(st, flag):
+                    if k == len(br) - 1 and isinstance(st, ast.If) and not stores(st.test, flag):
+                        nb, no = thread(st.body, cur, flag, b), thread(st.orelse, cur, flag, b)
+                        if nb is None or no is None:
+                            return None
+                        new = ast.If(test=st.test, body=nb or [ast.Pass()], orelse=no)
+                        return br[:k] + [new]
+                    return None
+            d = decide(b.test, flag, cur)
+            if d is None:
+                return None
+            return br + copy.deepcopy(b.body if d else b.orelse)
         i = 0
         while i + 1 < len(stmts):
             a, b = stmts[i], stmts[i + 1]
             if isinstance(a, ast.If) and isinstance(b, ast.If):
-                t, neg = b.test, False
-                if isinstance(t, ast.UnaryOp) and isinstance(t.op, ast.Not):
-                    t, neg = t.operand, True
-                if isinstance(t, ast.Name):
-                    flag = t.id
+                names = [n.id for n in ast.walk(b.test) if isinstance(n, ast.Name)]
+                if len(set(names)) == 1 and decide(b.test, names[0], 'none') is not None and stores(a, names[0]) and not stores(a.test, names[0]):
+                    flag = names[0]
                     init = None
-                    if i > 0 and isinstance(stmts[i - 1], ast.Assign) and len(stmts[i - 1].targets) == 1 and isinstance(stmts[i - 1].targets[0], ast.Name) \
-                            and stmts[i - 1].targets[0].id == flag and isinstance(stmts[i - 1].value, ast.Constant) and isinstance(stmts[i - 1].value.value, bool):
-                        init = stmts[i - 1].value.value
-                    v1, v2 = self.flag_at_end(a.body, flag, init), self.flag_at_end(a.orelse, flag, init)
-                    if v1 is not None and v2 is not None and not any(isinstance(n, ast.Name) and n.id == flag for n in ast.walk(a.test)):
-                        if v1 != 'exit':
-                            a.body = list(a.body) + copy.deepcopy(b.body if (v1 != neg) else b.orelse)
-                        if v2 != 'exit':
-                            a.orelse = list(a.orelse) + copy.deepcopy(b.body if (v2 != neg) else b.orelse)
-                        del stmts[i + 1]
+                    for prev in reversed(stmts[:i]):
+                        if isinstance(prev, ast.Assign) and len(prev.targets) == 1 and isinstance(prev.targets[0], ast.Name) and prev.targets[0].id == flag:
+                            init = flag_value(prev.value)
+                            break
+                        if any(isinstance(n, ast.Name) and n.id == flag for n in ast.walk(prev)):
+                            break
+                    new = thread([a], init, flag, b)
+                    if new is not None:
+                        stmts[i:i + 2] = new
                         continue
             i += 1
         return stmts
-
-    def flag_at_end(self, branch, flag, init):
-        if always_exits(branch):
-            return 'exit'
-        val = init
-        for st in branch:
-            if isinstance(st, ast.Assign) and len(st.targets) == 1 and isinstance(st.targets[0], ast.Name) and st.targets[0].id == flag \
-                    and isinstance(st.value, ast.Constant) and isinstance(st.value.value, bool):
-                val = st.value.value
-            elif any(isinstance(n, ast.Name) and n.id == flag and isinstance(n.ctx, (ast.Store, ast.Del)) for n in ast.walk(st)):
-                return None
-        return val
 
     def expand_table_dispatch(self, st):
         """if E in {k1: v1, k2: v2, ...}: BODY(table[E]) else: ELSE   ->   if E == k1: BODY(v1) elif E == k2: BODY(v2) ... else: ELSE
@@ -1218,7 +1286,9 @@ class Normalizer:
             lo, hi = (0, it.args[0].value) if len(it.args) == 1 else (it.args[0].value, it.args[1].value)
             it = ast.Tuple(elts=[ast.Constant(value=k) for k in range(lo, hi)], ctx=ast.Load())
         elif isinstance(it, ast.Call) and dotted(it.func) == 'zip' and not it.keywords and it.args and all(isinstance(a, (ast.Tuple, ast.List)) for a in it.args) \
-                and len({len(a.elts) for a in it.args}) == 1 and not any(isinstance(e, ast.Starred) for a in it.args for e in a.elts):
+                and len({len(a.elts) for a in it.args}) == 1 and not any(isinstance(e, ast.Starred) for a in it.args for e in a.elts) \
+                and all(is_pure(e) for a in it.args for e in a.elts):
+            # (pairing the elements changes the order in which they are evaluated: pure elements only)
             it = ast.Tuple(elts=[ast.Tuple(elts=[a.elts[k] for a in it.args], ctx=ast.Load()) for k in range(len(it.args[0].elts))], ctx=ast.Load())
         if not isinstance(it, (ast.Tuple, ast.List)) or not (1 <= len(it.elts) <= 8):
             return None
@@ -1459,7 +1529,8 @@ class Normalizer:
                         # the use must not sit in a conditionally evaluated position (and/or, conditional expression)
                         if any(isinstance(x, (ast.BoolOp, ast.IfExp)) and any(y is uses[0] for y in ast.walk(x)) for x in ast.walk(fn)):
                             continue
-                    if len(uses) > 1 and not isinstance(st.value, (ast.Name, ast.Constant, ast.Attribute, ast.Dict)) and cost(st.value) > 60 and not star_only:
+                    is_record = isinstance(st.value, ast.Call) and isinstance(st.value.func, ast.Name) and st.value.func.id == 'record__'
+                    if len(uses) > 1 and not isinstance(st.value, (ast.Name, ast.Constant, ast.Attribute, ast.Dict)) and cost(st.value) > 60 and not star_only and not is_record:
                         continue
                     names, attrs = reads(st.value)
                     names.discard(v)
@@ -1473,8 +1544,10 @@ class Normalizer:
                     if any(isinstance(n, ast.Lambda) for n in ast.walk(st.value)):
                         # what a lambda body reads is read when it is called, wherever the lambda was created
                         attrs = {a for a in attrs if any(isinstance(n, ast.Attribute) and dotted(n) == a for n in _walk_outside_lambdas(st.value))}
+                    funcs_ = {id(c.func) for c in ast.walk(st.value) if isinstance(c, ast.Call) and isinstance(c.func, ast.Name)}
+                    const_only = not any(isinstance(n, (ast.Name, ast.Attribute, ast.Subscript, ast.Lambda)) and id(n) not in funcs_ for n in ast.walk(st.value))
                     state = bool(attrs) or has_sub or (any(isinstance(n, ast.Call) for n in _walk_outside_lambdas(st.value))
-                                                       and not self.immutable_scalar_expr(st.value))
+                                                       and not self.immutable_scalar_expr(st.value) and not const_only)
                     killers = set()
                     for k, n in cfg.nodes.items():
                         if n is None or k == D:
@@ -2319,6 +2392,11 @@ class ExprCanon(ast.NodeTransformer):
 
     def visit_Attribute(self, n):
         self.generic_visit(n)
+        # record__(a=1, b=2).a -> 1   (a row of a module-level namedtuple table, see pyflow.module_constants)
+        if isinstance(n.ctx, ast.Load) and isinstance(n.value, ast.Call) and isinstance(n.value.func, ast.Name) and n.value.func.id == 'record__':
+            hit = [k.value for k in n.value.keywords if k.arg == n.attr]
+            if len(hit) == 1 and all(is_pure(k.value) for k in n.value.keywords):
+                return hit[0]
         # (X if c else Y).attr -> X.attr if c else Y.attr
         if isinstance(n.ctx, ast.Load) and isinstance(n.value, ast.IfExp):
             e = n.value
